@@ -79,7 +79,7 @@ def k7tags (t : Tokens) : String :=
   let missing := ((List.range n).filter fun i => framesOf fin i == 0).length
   let dup := ((List.range n).map fun i => framesOf fin i - 1).sum
   let unasked := (fin.out.filter fun (_, i) => i ≥ n).length
-  s!"missing={missing} dup={dup} unasked={unasked} badframe=0 extra=0"
+  s!"missing={missing} dup={dup} unasked={unasked} badframe=0 extra=0 wrongbody=0"
 
 /-- k7reuse: a second request with a tag still in flight is dropped; after the reply the tag is
 free again -/
